@@ -369,7 +369,7 @@ func objSet(v any, path, val string) bool {
 // ---------------------------------------------------------------- corpus
 
 var corePayloads = []string{
-	";", "{", "}", "#", "\"", "'", "\\", "\r", "\n", "\t", " ", "$", "${",
+	";", "{", "}", "#", "\"", "'", "\\", "\r", "\n", "\t", " ", "$", "${", "%\\\"{",
 	"; injected on;", "a;b", "a{b", "a}b", "a#b", "a\"b", "a'b", "a\\", "a\\b", "a b", "a\tb", "a\nb", "a\r\nb",
 	" ;", "\n;", "\n}", "{}", "#x\n", "\";", "';", "\\;", "\\\"", "\\\\", "\\\\;", "\";\"", "\"; }", "'; }", "x;}", "};", "}\n}",
 	"$x", "${x}", "${x};", "$x;", "${", "$(x)", "${x", "$;",
@@ -902,8 +902,12 @@ func runJob(e *env, fi int, fx Fixture, plus bool, rng *vh.Rng, thorough bool, b
 			if nleaves%nchunks != chunk {
 				if !thorough {
 					// instance numbering is global over the fixture, not per chunk
-					fieldInstances[normField(l.Field)]++
-					fieldInstances[normField(l.Field)+"|"+leafContext(o, l)]++
+					nf := normField(l.Field)
+					if l.Value == "" {
+						nf += "|empty"
+					}
+					fieldInstances[nf]++
+					fieldInstances[nf+"|"+leafContext(o, l)]++
 				}
 				continue
 			}
@@ -928,13 +932,16 @@ func runJob(e *env, fi int, fx Fixture, plus bool, rng *vh.Rng, thorough bool, b
 				// (the same Go type reached through another path index) get a seed-dependent sample of 5
 				lr := rng.Fork(uint64(fi*100000 + oi*1000 + nleaves))
 				nf := normField(l.Field)
+				if l.Value == "" {
+					nf += "|empty" // an unset instance must not use up the full payload set of the field
+				}
 				ck := nf + "|" + leafContext(o, l)
 				fieldInstances[nf]++
 				fieldInstances[ck]++
 				switch {
 				case fieldInstances[nf] == 1 && !w.Secondary:
-					payloads = append([]string(nil), corePayloads[:40]...)
-					for _, p := range corePayloads[40:] {
+					payloads = append([]string(nil), corePayloads[:41]...)
+					for _, p := range corePayloads[41:] {
 						if lr.Chance(1, 6) {
 							payloads = append(payloads, p)
 						}
